@@ -356,6 +356,9 @@ func unlockPoint(site string) {
 		Yield(ClassUnlock, site)
 		return
 	}
+	if t := s.selfOrAnon(); t.quiet > 0 {
+		return
+	}
 	switch s.Draw("unlock.delay", 6) {
 	case 0:
 		Fault("sched.delay_after_unlock")
